@@ -67,6 +67,11 @@ Expected(ta, tb, o, g) ==
     [] o = "mul" -> IF Overlaps(r, s) /\ RegOf(ta) = RegOf(tb) THEN <<Retag(ta, Inter(r, s))>> ELSE <<>>
     [] o = "is_inside" -> B2I(Inside(r, s))
     [] o = "touches" -> B2I(Touch(r, s))
+    \* touching within a stated distance tolerance of g[1] HALF lattice units (odd, so that no gap equals it): coordinate
+    \* comparison per axis, as the statement says ("touching (within the distance tolerance) match coordinate comparison")
+    [] o = "touches_tol" -> B2I(2 * OvW(r, s) >= -g[1] /\ 2 * OvH(r, s) >= -g[1])
+    \* containment, observed together with the comparison of the objects' own corner coordinates (bounding_box)
+    [] o = "is_inside_bb" -> <<B2I(Inside(r, s)), B2I(Inside(r, s))>>
     [] o = "eq" -> B2I(r = s /\ RegOf(ta) = RegOf(tb))
     [] o = "duplicate" -> <<ta>>
     [] o = "split" -> <<Retag(ta, Halve(r)[1]), Retag(ta, Halve(r)[2])>>
@@ -108,6 +113,12 @@ Holds(ta, tb, o, g, v, ex, sm) ==
     [] o = "is_inside" -> IF ex THEN v = B2I(Inside(r, s))
                           ELSE IsBit(v) /\ (v = 1 => Inside(r, s)) /\ (InsideStrict(r, s) => v = 1)
     [] o = "touches" -> v = B2I(Touch(r, s))
+    [] o = "touches_tol" -> v = B2I(2 * OvW(r, s) >= -g[1] /\ 2 * OvH(r, s) >= -g[1])
+    \* "containment ... match[es] coordinate comparison": the answer equals the comparison of the four corner coordinates
+    \* the objects themselves report (second component), under every embedding; and plane geometry where it is decidable
+    [] o = "is_inside_bb" -> /\ Len(v) = 2 /\ IsBit(v[1]) /\ v[1] = v[2]
+                             /\ IF ex THEN v[1] = B2I(Inside(r, s))
+                                ELSE (v[1] = 1 => Inside(r, s)) /\ (InsideStrict(r, s) => v[1] = 1)
     [] o = "point_inside" -> IF ex THEN v = B2I(PointIn2(g[1], g[2], r))
                              ELSE IsBit(v) /\ (v = 1 => PointIn2(g[1], g[2], r)) /\ (PointIn2Strict(g[1], g[2], r) => v = 1)
     [] o = "duplicate" -> v = <<ta>>
